@@ -325,6 +325,33 @@ func (g *Gen) Hostile() (kind string, body []byte) {
 		b["criteria"] = cs
 		return "many-criteria", JSONBytes(b)
 	}
+	if mp := jmap(q.Body["methodParameters"]); mp != nil && r.Bool(0.25) {
+		if fn, _ := mp["function"].(string); strings.HasPrefix(fn, "ideal") {
+			// a legal coefficient that makes the generated series of aspiration levels very long
+			// (thousands of levels): served or refused, but the same way every time
+			b := CloneJ(q.Body).(map[string]interface{})
+			pp := jmap(jmap(b["methodParameters"])["params"])
+			if pp != nil {
+				pp["coefficient"] = r.PickF(1e-3, 1e-4, 1e-5, 1e-6)
+				return "long-level-series", JSONBytes(b)
+			}
+		}
+	}
+	if len(q.Alts) > 0 && len(q.Crits) > 0 && r.Bool(0.04) {
+		// an alternative carries a value for a criterion nobody declared (some methods ignore it,
+		// others notice while they evaluate that alternative - late, next to other requests)
+		b := CloneJ(q.Body).(map[string]interface{})
+		ka := jarr(b["knownAlternatives"])
+		which := r.Intn(len(ka) + 1)
+		for i, a := range ka {
+			if which == len(ka) || which == i {
+				if m := jmap(jmap(a)["criteria"]); m != nil {
+					m[g.O.IDPrefix+"undeclared"] = float64(r.Range(0, 5))
+				}
+			}
+		}
+		return "undeclared-criterion-value", JSONBytes(b)
+	}
 	if r.Bool(0.06) {
 		// a key spelt with other letter case (decoders of nested parameters match keys ignoring
 		// case): beside the properly spelt key with another value, or instead of it. Whatever the
